@@ -100,7 +100,17 @@ def run(ctx):
             variants.append(("bitflip", bytes(a2)))
         for (H2, ps2, seed2) in bases:
             if H2 == H and seed2 != seed and seed2 in filled:
-                variants.append(("other-seed", max(filled[seed2], key=len)))
+                other = max(filled[seed2], key=len)
+                variants.append(("other-seed", other))
+                # ... with its MAC cut off completely / partly (a length-tolerant MAC comparison would accept these)
+                for keep in (0, 1, n // 2, n - 1):
+                    variants.append(("other-seed-mac-cut", other[:len(other) - n + keep]))
+        # non-authentic content combined with a missing / partial MAC
+        for keep in (0, 1, n // 2, n - 1):
+            a2 = bytearray(aux[:len(aux) - n + keep])
+            a2[4 + rng.randrange(len(aux) - n - 4)] ^= 1 << rng.randrange(8)
+            variants.append(("bitflip-mac-cut", bytes(a2)))
+            variants.append(("garbage-mac-cut", aux[:4] + rng.bytes_(len(aux) - n - 4 + keep)))
         for cl, ax in variants:
             cases.append(Case(sign_line(H, skb, msg, "accept", ax), "sign/" + cl, {"b": (H, ps, seed), "ref": (H, skb, msg)}))
             if cl != "none":
